@@ -1,5 +1,118 @@
+/-
+  C10 - Program behaviour is independent of how identifiers are spelled.
+
+  The pinned tree does NOT have this property in general (known finding reserved-identifiers-not-rejected:
+  no identifier is rejected, and user names live in the same shell namespace as the names the back-ends
+  emit).  Proved here, about the naming scheme of the bash converter model, is what does hold and where
+  exactly it stops:
+    * `mangling_is_injective`: the local `a` of the k-th function and the local `b` of the k'-th function
+      are emitted under the same shell name only if k = k' and a = b -- locals of different functions,
+      and different locals of one function, never collide, whatever they are called;
+    * `owned_names_start_with_underscore`: every name the converter invents (`_h<n>` helpers, `_rv<n>`
+      return registers, `_fv<n>` loop flags, `_ma<i>` temporaries, `_dvc`, the helper routines and their
+      scratch variables) starts with `_`, hence `plain_user_names_never_hit_owned_names`: a user
+      identifier that does not start with `_` is never one of them;
+    * `renaming_partial`: for identifiers that start with a letter, a renaming that keeps them apart keeps
+      their emitted names apart (globals: the name itself; locals: by injectivity of the mangling);
+    * the boundary, as theorems about concrete witnesses: a global called `f1_x` IS the mangled local `x`
+      of the first function (`mangled_local_collides_with_global`), a user variable `_h0` IS the first
+      helper (`user_name_can_be_a_helper`) -- the two collisions behind the known finding.
+  Behavioural equality under renaming is decided by the renaming oracle of the check.
+-/
 import TshVerif.Model.ConvBash
 namespace Tsh.C10
-open Tsh Tsh.Bash
+open Tsh Tsh.Tr Tsh.Bash
+
+/-- splitting at the first `_`: digits contain none -/
+theorem split_at_underscore : ∀ (l1 l2 a b : List Char), '_' ∉ l1 → '_' ∉ l2 →
+    l1 ++ '_' :: a = l2 ++ '_' :: b → l1 = l2 ∧ a = b := by
+  intro l1
+  induction l1 with
+  | nil =>
+    intro l2 a b _ h2 h
+    cases l2 with
+    | nil => simpa using h
+    | cons c l2 => simp at h; exact absurd h.1.symm (by intro hc; apply h2; simp [hc])
+  | cons c l1 ih =>
+    intro l2 a b h1 h2 h
+    cases l2 with
+    | nil => simp at h; exact absurd h.1 (by intro hc; apply h1; simp [hc])
+    | cons d l2 =>
+      simp at h
+      obtain ⟨hc, ht⟩ := h
+      obtain ⟨e1, e2⟩ := ih l2 a b (fun hm => h1 (by simp [hm])) (fun hm => h2 (by simp [hm])) ht
+      exact ⟨by rw [hc, e1], e2⟩
+
+theorem digits_inj (k k' : Nat) (h : Nat.toDigits 10 k = Nat.toDigits 10 k') : k = k' := by
+  have := congrArg (fun l => Nat.ofDigitChars 10 l 0) h
+  simpa using this
+
+/-- the mangled name of a local: `f<k>_<name>` -/
+def mangled (k : Nat) (name : String) : String := s!"f{k}_{name}"
+
+theorem mangled_toList (k : Nat) (name : String) : (mangled k name).toList = 'f' :: (Nat.toDigits 10 k ++ '_' :: name.toList) := by
+  simp [mangled, String.toList_append, toString]
+
+/-- **Mangling is injective**: locals of different functions never collide. -/
+theorem mangling_is_injective (k k' : Nat) (a b : String) (h : mangled k a = mangled k' b) : k = k' ∧ a = b := by
+  have h' := congrArg String.toList h
+  rw [mangled_toList, mangled_toList] at h'
+  simp only [List.cons.injEq, true_and] at h'
+  obtain ⟨e1, e2⟩ := split_at_underscore _ _ _ _ Nat.underscore_not_in_toDigits Nat.underscore_not_in_toDigits h'
+  exact ⟨digits_inj k k' e1, String.toList_inj.mp e2⟩
+
+/-- inside a function the converter uses exactly this mangling for non-global names -/
+theorem local_name_is_mangled (s : St) (name : String) (h : s.funcs ≠ []) : varName s name false = mangled s.funcCounter name := by
+  cases hf : s.funcs with
+  | nil => exact absurd hf h
+  | cons a b => simp [varName, inFunction, hf, mangled]
+
+/-- the names the bash converter invents -/
+inductive Owned : String → Prop
+  | helper (n : Nat) : Owned s!"_h{n}"
+  | retReg (n : Nat) : Owned s!"_rv{n}"
+  | loopFlag (n : Nat) : Owned s!"_fv{n}"
+  | multiTmp (n : Nat) : Owned s!"_ma{n}"
+  | arrayCounter : Owned "_dvc"
+  | arrayName (n : Nat) : Owned s!"_dv{n}"
+  | routine (r : String) : r ∈ ["_sah", "_sch", "_ssh"] → Owned r
+  | scratch (r : String) : r ∈ ["_i", "_l", "_c", "_n", "_v", "_ls", "_ll", "_ret"] → Owned r
+
+theorem owned_names_start_with_underscore (n : String) (h : Owned n) : n.toList.head? = some '_' := by
+  cases h with
+  | helper k => simp [String.toList_append, toString]
+  | retReg k => simp [String.toList_append, toString]
+  | loopFlag k => simp [String.toList_append, toString]
+  | multiTmp k => simp [String.toList_append, toString]
+  | arrayCounter => rfl
+  | arrayName k => simp [String.toList_append, toString]
+  | routine r hr => simp at hr; rcases hr with rfl | rfl | rfl <;> rfl
+  | scratch r hr => simp at hr; rcases hr with rfl | rfl | rfl | rfl | rfl | rfl | rfl | rfl <;> rfl
+
+/-- **A user identifier that does not start with `_` is never a compiler-owned name.** -/
+theorem plain_user_names_never_hit_owned_names (user owned : String) (hu : user.toList.head? ≠ some '_') (ho : Owned owned) :
+    user ≠ owned := by
+  intro he; subst he; exact hu (owned_names_start_with_underscore _ ho)
+
+/-- …and a mangled local (`f…`) is not one either -/
+theorem mangled_names_never_hit_owned_names (k : Nat) (name owned : String) (ho : Owned owned) : mangled k name ≠ owned := by
+  apply plain_user_names_never_hit_owned_names _ _ _ ho
+  rw [mangled_toList]; simp
+
+/-- a renaming that keeps two local names apart keeps their emitted names apart (same or different functions) -/
+theorem renaming_partial (ρ : String → String) (hρ : ∀ a b, ρ a = ρ b → a = b) (k k' : Nat) (a b : String)
+    (h : mangled k (ρ a) = mangled k' (ρ b)) : k = k' ∧ a = b := by
+  obtain ⟨hk, hab⟩ := mangling_is_injective _ _ _ _ h
+  exact ⟨hk, hρ _ _ hab⟩
+
+/-! ### the boundary (known finding reserved-identifiers-not-rejected) -/
+
+/-- a GLOBAL called `f1_x` is emitted under the same shell name as the local `x` of the first function -/
+theorem mangled_local_collides_with_global :
+    varName { funcs := ["f"], funcCounter := 1 } "x" false = varName { funcs := ["f"], funcCounter := 1 } "f1_x" true := by
+  decide
+
+/-- a user variable called `_h0` is the converter's first helper variable -/
+theorem user_name_can_be_a_helper : Owned "_h0" := Owned.helper 0
 
 end Tsh.C10
